@@ -34,6 +34,19 @@ HARNESSES = [(("cli_api", "plain", ["cli_api.cpp"]), {})]
 EPS = 2.220446049250313e-16
 
 
+def monitored_sectors():
+    """names of the states the library can report as tachyonic (the strings of its problem messages)"""
+    import glob
+    import re
+    names = set()
+    for f in sorted(glob.glob(os.path.join(build.REPO, "src", "MSSMNoFV", "*.cpp"))):
+        names.update(re.findall(r'flag_tachyon\(\s*"(\w+)"\s*\)', open(f, encoding="latin-1").read()))
+    return names
+
+
+MONITORED = set()
+
+
 def mw_tree(p):
     """tree-level chargino off-diagonal entry at tan(beta) = 1 in the arithmetic of the library:
     g2 = e/sw, v = 2 MW/g2, vu = v/sqrt(2), entry = g2 vu/sqrt(2) (= MW up to rounding)"""
@@ -70,6 +83,8 @@ def defect_sets(style, skip, quick):
     sets = [()] + [(d,) for d in ds]
     nconf = 0
     for a, b in itertools.combinations(ds, 2):
+        if quick and not (a.pairs_in_quick and b.pairs_in_quick):
+            continue
         if T.compatible(a, b):
             sets.append((a, b))
         else:
@@ -198,6 +213,7 @@ def observe_cli(c, rc, out, err):
     o["warn_ind"] = "Warning" in diag
     o["prob_ind"] = "Problem" in diag or "tachyon" in diag
     o["msg"] = diag[-300:]
+    o["text"] = diag
     o["cls"] = None
     return o
 
@@ -230,6 +246,7 @@ def observe_api(c, r_):
     o["warn_ind"] = "Warning" in err or r_.get("warning") == "1"
     o["prob_ind"] = r_.get("problem") == "1" or "Problem" in err or "tachyon" in err
     o["msg"] = (C.unesc(r_.get("what", "-")) + " | " + err + " | " + probs)[-300:]
+    o["text"] = C.unesc(r_.get("what", "-")) + " | " + err + " | " + probs
     o["mcha0"] = r_.get("mcha0")
     return o
 
@@ -321,6 +338,18 @@ def judge(c, o):
                         "problem flagged" if o["prob_ind"] else "result with at most warnings"))
             if pred["finite"] and (res is None or not math.isfinite(res)):
                 fail("valid-nonfinite", "valid point gives %r" % res)
+    # ---- a tachyon defect must be reported for its own sector --------------------
+    if dset and all(d.kind == "tachyon" for d in dset) and not o.get("crash"):
+        text = o.get("text", "")
+        for d in dset:
+            if d.sector is None or d.sector not in MONITORED:
+                continue
+            if c["entry"] == "c" and model == "MSSM" and o["refused"]:
+                continue        # the C interface reports only the error code when it refuses
+            if o["refused"] and d.also and "tachyon" not in text:
+                continue        # refused as negative soft mass^2, the other documented rule
+            if ("%s tachyon" % d.sector) not in text:
+                fail("tachyon-not-flagged", "the %s state is tachyonic (%s) but '%s tachyon' is not reported" % (d.sector, d.doc, d.sector))
     # ---- invariants of the statement, on every run ---------------------------
     if cli:
         nonzero = o["rc"] != 0
@@ -366,6 +395,13 @@ def probe_cha0():
 def run(ctx):
     import time
     t0 = time.time()
+    MONITORED.update(monitored_sectors())
+    realised = {d.sector for d in T.mssm_defects() if d.sector}
+    ctx.note("monitored_sectors_in_source", sorted(MONITORED))
+    ctx.note("monitored_sectors_without_realisation", sorted(MONITORED - realised))
+    ctx.note("realised_sectors_not_in_source", sorted(realised - MONITORED))
+    if not MONITORED & realised:
+        raise InfraError("no monitored sector name found in the sources (%r)" % sorted(MONITORED))
     skip, notes = probe_cha0()
     ctx.note("cha0_lightest_chargino_mass_per_base", {k: repr(v) for k, v in notes.items()})
     for k in sorted(skip):
@@ -431,6 +467,7 @@ def replay(ctx, path):
     import json
     c = json.load(open(path))["data"]
     c["ids"] = tuple(c["ids"])
+    MONITORED.update(monitored_sectors())
     o = execute([c])[0]
     f = judge(c, o)
     if f:
